@@ -37,7 +37,19 @@ PopTag(grp, G, p) ==
   IF "tag" \in DOMAIN grp.pops[p] THEN [v \in G.n |-> grp.pops[p].tag[v]]
   ELSE LET tn == TransportNodes(G, ToSet(grp.pops[p].z), ToSet(grp.pops[p].w)) IN
        [v \in G.n |-> IF v \in tn THEN p ELSE 0]
+\* counterfactual-transport domains (C09): grp.cdoms[k] = [s |-> nodes with a selection node, z |-> policy variables];
+\* domain k is the target with fresh mechanisms at s and z, the edges (directed and bidirected) into the policy
+\* variables removed (a policy without parents and with its own fresh noise), every other mechanism and noise shared
+\* (a latent keeps acting on its other children: only the policy variables are cut from it)
+CDomModel(grp, G, k, seed) ==
+  LET S == ToSet(grp.cdoms[k].s)  Z == ToSet(grp.cdoms[k].z)
+      lat == LatOf(G)
+  IN ModelF(RemoveIn(G, Z), [j \in DOMAIN lat |-> lat[j] \ Z], CardOf(G),
+            [v \in G.n |-> IF v \in S \cup Z THEN k ELSE 0], seed)
 ModelsOf(grp, G, seed) ==
+  IF "cdoms" \in DOMAIN grp
+  THEN [p \in 0..Len(grp.cdoms) |-> IF p = 0 THEN ModelF(G, LatOf(G), CardOf(G), NoTag(G), seed) ELSE CDomModel(grp, G, p, seed)]
+  ELSE
   LET np == IF "pops" \in DOMAIN grp THEN Len(grp.pops) ELSE 0 IN
   [p \in 0..np |->
      IF Fam = "F" THEN ModelF(G, LatOf(G), CardOf(G), IF p = 0 THEN NoTag(G) ELSE PopTag(grp, G, p), seed)
@@ -54,6 +66,11 @@ RecTerms(r, grp_n) ==
     [] r.k = "star"  -> OutTerm(r) \cup {EventTerm(r.ev, 0)}
     [] r.k = "cstar" -> OutTerm(r) \cup {EventTerm(r.ev \o r.cond, 0), EventTerm(r.cond, 0)}
     [] r.k = "cg"    -> {EventTerm(r.ev, 0)} \cup (IF r.out.k = "graph" THEN {EventTerm(r.out.ev, 0)} ELSE {})
+    [] r.k = "min"   -> {EventTerm(<<[r.v EXCEPT !.s = 1]>>, 0)} \cup (IF r.out.k = "var" THEN {EventTerm(<<[r.out.v EXCEPT !.s = 1]>>, 0)} ELSE {})
+    [] r.k = "simp"  -> {EventTerm(r.ev, 0)} \cup (IF r.out.k = "event" THEN {EventTerm(r.out.ev, 0)} ELSE {})
+    [] r.k = "fact"  -> {EventTerm(r.ev, 0)} \cup OutTerm(r)
+    [] r.k = "ctfu"  -> OutTerm(r) \cup {EventTerm(r.ev, 0)}
+    [] r.k = "ctfc"  -> OutTerm(r) \cup {EventTerm(r.ev \o r.cond, 0), EventTerm(r.cond, 0)}
     [] r.k = "tr"  -> OutTerm(r) \cup {TruthDo(ToSet(r.x), ToSet(r.y), 0)}
     [] r.k = "q"   -> OutTerm(r) \cup {TruthDo(ToSet(grp_n) \ ToSet(r.s), ToSet(r.s), 0)}
     [] OTHER -> {}
@@ -188,6 +205,16 @@ ReadCmp(Ws, e, ev, target) ==
       cs == [R \in rs |-> Cmp(Ws, ApplyReading(e, R), target)]
       good == {R \in rs : cs[R].nbad = 0}
   IN IF good # {} THEN cs[Pick(good)] ELSE cs[Pick(rs)]
+\* the same with the weaker reading of subscripts added to the candidates
+ReadCmpWeak(Ws, e, ev, target) ==
+  LET rs == ReadingsSub(ev)
+      cands == {ApplyReading(e, R) : R \in rs} \cup {ApplyReadingIv(e, R) : R \in rs}
+      cs == [x \in cands |-> Cmp(Ws, x, target)]
+      good == {x \in cands : cs[x].nbad = 0}
+      \* for a failing record the signature is taken at one fixed candidate (every name at its smallest permitted mark,
+      \* subscripts literal), so that it does not depend on how many candidates there are
+      R0 == CHOOSE R \in rs : \A R2 \in rs : \A n \in DOMAIN R : R[n] <= R2[n]
+  IN IF good # {} THEN cs[Pick(good)] ELSE cs[ApplyReading(e, R0)]
 IsZeroEverywhere(Ws, t) == LET c == Cmp(Ws, t, ZeroT) IN c.nbad = 0
 \* ID*: an expression for P(event), zero only for impossible events, or the refusal
 JudgeStar(G, Ws, r) ==
@@ -243,8 +270,73 @@ JudgeCG(G, Ws, r) ==
                  IF c.nbad > 0 THEN Verdict(r.id, FALSE, "value", c)
                  ELSE Verdict(r.id, TRUE, "ok", c)
 
+\* ---- Correa et al. helper routines (C19) -----------------------------------------------------------
+\* minimisation: a well-formed variable, subscripts a subset of the input's, the same random variable pointwise
+JudgeMin(G, Ws, r) ==
+  CASE r.out.k = "exc" -> Verdict(r.id, FALSE, "raised", NoCmp)
+    [] r.out.k = "var" ->
+         LET o == r.out.v IN
+         IF o.n # r.v.n \/ ~(ToSet(o.iv) \subseteq ToSet(r.v.iv)) THEN Verdict(r.id, FALSE, "not-a-sub-variable", NoCmp)
+         ELSE IF \E k \in DOMAIN Ws : \E env \in Envs(Ws[k]) : \E ue \in UEps(Ws[k].m[0]) :
+                    Ws[k].T[0][WorldOf(Ws[k], r.v, env)][ue][r.v.n] # Ws[k].T[0][WorldOf(Ws[k], o, env)][ue][r.v.n]
+              THEN Verdict(r.id, FALSE, "different-random-variable", NoCmp)
+         ELSE IF VarKey(o) # VarKey(MinRef(G, r.v)) THEN Verdict(r.id, TRUE, "ok-not-minimal", NoCmp)
+         ELSE Verdict(r.id, TRUE, "ok", NoCmp)
+\* SIMPLIFY: same probability; 'impossible' only for impossible events
+JudgeSimp(G, Ws, r) ==
+  LET truth == EventTerm(r.ev, 0) IN
+  CASE r.out.k = "exc" -> Verdict(r.id, FALSE, "raised", NoCmp)
+    [] r.out.k = "none" -> IF IsZeroEverywhere(Ws, truth) THEN Verdict(r.id, TRUE, "impossible-ok", NoCmp)
+                           ELSE Verdict(r.id, FALSE, "impossible-for-possible-event", NoCmp)
+    [] r.out.k = "event" -> LET c == Cmp(Ws, EventTerm(r.out.ev, 0), truth) IN
+                            IF c.nbad > 0 THEN Verdict(r.id, FALSE, "value", c) ELSE Verdict(r.id, TRUE, "ok", c)
+\* ancestors of a counterfactual variable: exactly Definition 2.1
+JudgeAnc(G, r) ==
+  CASE r.out.k = "exc" -> Verdict(r.id, FALSE, "raised", NoCmp)
+    [] r.out.k = "vars" -> IF {VarKey(r.out.vs[i]) : i \in DOMAIN r.out.vs} = AnCtf(G, r.v) THEN Verdict(r.id, TRUE, "ok", NoCmp)
+                           ELSE Verdict(r.id, FALSE, "not-the-definition", NoCmp)
+\* counterfactual-factor factorisation: the sum-product, read with the returned event, is P(query)
+JudgeFact(G, Ws, r) ==
+  CASE r.out.k = "exc" -> Verdict(r.id, FALSE, "raised", NoCmp)
+    [] r.out.k = "expr" ->
+         IF "unser" \in DOMAIN r.out THEN Verdict(r.id, FALSE, "unserialisable", NoCmp)
+         ELSE LET c == ReadCmpWeak(Ws, r.out.e, r.out.ev, EventTerm(r.ev, 0)) IN
+              IF c.nbad > 0 THEN Verdict(r.id, FALSE, "value", c)
+              ELSE IF c.ndef = 0 THEN Verdict(r.id, FALSE, "undefined-everywhere", c)
+              ELSE Verdict(r.id, TRUE, "ok", c)
+
+\* ---- counterfactual transportability (C09) ----------------------------------------------------------
+\* vocabulary: only terms of a declared source domain (population k >= 1), observational within that domain
+RECURSIVE CtfVocab(_, _, _)
+CtfVocab(e, V, K) ==
+  CASE e.t = "P" -> e.pop \in 1..K /\ \A v \in TermVars(e) : v.n \in V /\ v.iv = <<>>
+    [] e.t = "M" -> \A i \in DOMAIN e.es : CtfVocab(e.es[i], V, K)
+    [] e.t = "F" -> CtfVocab(e.a, V, K) /\ CtfVocab(e.b, V, K)
+    [] e.t = "S" -> ToSet(e.r) \subseteq V /\ CtfVocab(e.e, V, K)
+    [] e.t = "Q" -> FALSE
+    [] OTHER -> TRUE
+JudgeCtf(grp, G, Ws, r) ==
+  LET joint == IF r.k = "ctfc" THEN EventTerm(r.ev \o r.cond, 0) ELSE EventTerm(r.ev, 0)
+      truth == IF r.k = "ctfc" THEN FT(joint, EventTerm(r.cond, 0)) ELSE joint
+  IN CASE r.out.k = "exc" -> Verdict(r.id, FALSE, "other-failure", NoCmp)
+       [] r.out.k = "rejected" -> Verdict(r.id, TRUE, "rejected-by-validation", NoCmp)
+       [] r.out.k = "none" -> Verdict(r.id, TRUE, "fail", NoCmp)
+       [] r.out.k = "zero" -> IF IsZeroEverywhere(Ws, joint) THEN Verdict(r.id, TRUE, "zero-ok", NoCmp)
+                              ELSE Verdict(r.id, FALSE, "zero-for-possible-event", NoCmp)
+       [] r.out.k = "expr" ->
+            IF "unser" \in DOMAIN r.out THEN Verdict(r.id, FALSE, "vocabulary", NoCmp)
+            ELSE IF ~CtfVocab(r.out.e, G.n, Len(grp.cdoms)) THEN Verdict(r.id, FALSE, "vocabulary", NoCmp)
+            ELSE LET c == ReadCmpWeak(Ws, r.out.e, r.out.ev, truth) IN
+                 IF c.nbad > 0 THEN Verdict(r.id, FALSE, "value", c)
+                 ELSE IF c.ndef = 0 THEN Verdict(r.id, FALSE, "undefined-everywhere", c)
+                 ELSE Verdict(r.id, TRUE, "ok", c)
+
 Judge(G, Ws, r) ==
   CASE r.k = "do"  -> JudgeDo(G, Ws, r)
+    [] r.k = "min"   -> JudgeMin(G, Ws, r)
+    [] r.k = "simp"  -> JudgeSimp(G, Ws, r)
+    [] r.k = "anc"   -> JudgeAnc(G, r)
+    [] r.k = "fact"  -> JudgeFact(G, Ws, r)
     [] r.k = "star"  -> JudgeStar(G, Ws, r)
     [] r.k = "cstar" -> JudgeCStar(G, Ws, r)
     [] r.k = "cg"    -> JudgeCG(G, Ws, r)
@@ -262,7 +354,9 @@ JudgeGroup(grp) ==
       sd  == SetToSeq(Seeds)
       dos == UNION {UNION {Dos(t) : t \in RecTerms(grp.recs[i], grp.n)} : i \in DOMAIN grp.recs}
       Ws  == TLCEval([k \in DOMAIN sd |-> Bundle(ModelsOf(grp, G, sd[k]), dos)])
-  IN [i \in DOMAIN grp.recs |-> IF grp.recs[i].k = "tr" THEN JudgeTr(grp, G, Ws, grp.recs[i]) ELSE Judge(G, Ws, grp.recs[i])]
+  IN [i \in DOMAIN grp.recs |-> IF grp.recs[i].k = "tr" THEN JudgeTr(grp, G, Ws, grp.recs[i])
+                                 ELSE IF grp.recs[i].k \in {"ctfu", "ctfc"} THEN JudgeCtf(grp, G, Ws, grp.recs[i])
+                                 ELSE Judge(G, Ws, grp.recs[i])]
 
 Init == gi = 0
 Next == /\ gi < Len(Trace)
